@@ -914,6 +914,18 @@ def _walk_fn(prog, g, args, depth=0):
 
     def call_eval(c, store):
         nm = c.get("fn")
+        if nm in ("__builtin_clz", "__builtin_clzl", "__builtin_clzll", "__builtin_ctz", "__builtin_ctzl", "__builtin_ctzll",
+                  "__builtin_popcount", "__builtin_popcountl", "__builtin_popcountll") and c.get("a"):
+            v = eval_in(store, cfg.resolve(c["a"][0]), g, call_eval)
+            if v is None:
+                return None
+            w_ = 32 if not nm.endswith("l") else 64
+            v &= (1 << w_) - 1
+            if "popcount" in nm:
+                return bin(v).count("1")
+            if v == 0:
+                return None         # undefined in C
+            return (w_ - v.bit_length()) if "clz" in nm else ((v & -v).bit_length() - 1)
         if not nm or not prog.has_fn(nm, g.file):
             return None
         h = prog.fn(nm, g.file)
@@ -938,7 +950,7 @@ def _walk_fn(prog, g, args, depth=0):
                 e = e["fs"][0][1]
             outs.append(eval_in(store, e, g, call_eval))
         return None
-    AbsWalk(g, {l_["n"] for l_ in g.locals}, init=init, effect=effect, call_eval=call_eval, max_states=20000).run()
+    AbsWalk(g, {l_["n"] for l_ in g.locals} | {p_["n"] for p_ in g.params}, init=init, effect=effect, call_eval=call_eval, max_states=20000).run()
     if len(set(outs)) != 1:
         return None
     return outs[0]
@@ -972,6 +984,48 @@ def r08_12(prog, rep, rid="R08.12"):
         rep.ok(rid, key, f.loc(), "%d differences (14 instants, every ordered pair) agree with the calendar" % n)
 
 
+def r08_13(prog, rep, rid="R08.13"):
+    """The other direction of the library's conversion, from unix time to an instant (it stamps journal entries and DTSTAMPs and tells
+    the daemon what `now` is): __epoch_to_inst() is walked for the first and the last second of days around every month end of a common
+    and a leap year, of the years on both sides of the 2038 limit and of the ends of the range from 1970 on, and compared with the
+    calendar; each result converted back (R08.10) gives the second it came from."""
+    import calendar
+    f = prog.fn("__epoch_to_inst", "tzob.c")
+    days = [(1970, 1, 1), (1970, 2, 28), (1970, 3, 1), (1971, 2, 28), (1971, 3, 1), (1972, 2, 28), (1972, 2, 29), (1972, 3, 1), (1999, 12, 31),
+            (2000, 1, 1), (2000, 2, 29), (2000, 3, 1), (2001, 3, 1), (2037, 12, 31), (2038, 1, 19), (2038, 1, 20), (2096, 2, 29), (2099, 12, 31)]
+    days += [(y, m, d) for y in (2023, 2024) for m in range(1, 13) for d in (1, calendar.monthrange(y, m)[1])]
+    from ..absw import AbsWalk, eval_in
+    cfg = f.cfg
+    tp = f.params[0]["n"]
+    resv = [l_["n"] for l_ in f.locals if "echs_instant" in (l_.get("t") or "")]
+    FL = ("y", "m", "d", "H", "M", "S")
+    bad = []
+    n = 0
+    for (y, m, d) in days:
+        for hms in ((0, 0, 0), (23, 59, 59), (12, 34, 56)):
+            t = calendar.timegm((y, m, d) + hms + (0, 0, 0))
+            outs = []
+
+            def effect(b, i, x, store, outs=outs):
+                if isinstance(x, dict) and x.get("k") == "ret" and x.get("e") is not None:
+                    e = lv(strip_casts(cfg.resolve(x["e"])))
+                    outs.append(tuple(store.get("%s.%s" % (e, k_)) for k_ in FL))
+                return None
+            AbsWalk(f, {l_["n"] for l_ in f.locals} | {tp} | {"%s.%s" % (r_, k_) for r_ in resv for k_ in FL + ("ms",)}, init={tp: t}, effect=effect,
+                    max_states=20000).run()
+            n += 1
+            if len(set(outs)) != 1:
+                raise AnalysisBroken("__epoch_to_inst(%d): no single result (%s)" % (t, outs[:2]))
+            if outs[0] != (y, m, d) + hms:
+                bad.append((t, "%04d-%02d-%02dT%02d:%02d:%02d" % ((y, m, d) + hms), outs[0]))
+    key = "__epoch_to_inst/agrees-with-the-calendar"
+    if bad:
+        rep.fail(rid, key, f.loc(), "%d of %d unix times become another instant than theirs, e.g. %s" % (len(bad), n, "; ".join(
+            "%d (%s) becomes %s" % (b_[0], b_[1], "-".join(str(v_) for v_ in b_[2][:3])) for b_ in bad[:3])), {"examples": [[b_[0], b_[1], list(b_[2])] for b_ in bad[:20]]})
+    else:
+        rep.ok(rid, key, f.loc(), "%d unix times from 1970 on become the calendar's instant" % n)
+
+
 def run(prog, rep, tier, snap):
     rep.rule("R08.1", "64-bit evaluation of millisecond quantities", 6)
     rep.call(r08_1, prog, rep)
@@ -996,6 +1050,8 @@ def run(prog, rep, tier, snap):
     rep.call(r08_10, prog, rep)
     rep.rule("R08.12", "echs_instant_diff() agrees with the calendar on both sides of leap days and year ends (value-fixed walk)", 1)
     rep.call(r08_12, prog, rep)
+    rep.rule("R08.13", "unix time -> instant agrees with the calendar from 1970 on (value-fixed walk)", 1)
+    rep.call(r08_13, prog, rep)
     rep.rule("R08.11", "the daemon's wake-up time of an instant agrees with the calendar, all-day instants at the start of their day (value-fixed walk)", 1)
     rep.call(r08_11, prog, rep)
 READY = True
